@@ -13,7 +13,7 @@ pub fn literal_texts() -> Vec<&'static str> {
         "", "a", "A", "abc", "a b", " a", "\u{e9}", "a.c", "^a", "a$", "(?i)ABC", "[", ".*", "b|c",
         "0", "1", "42", "-1", "-0", "+5", "007", "0x10", "0xff", "0xFF", "0x", "0X10", "0Xff", "0b11", "0o17", "1_000", "1.5", "-2.5", "1.0", "42.0",
         "18446744073709551615", "18446744073709551616", "9223372036854775808", "-9223372036854775808",
-        "0xffffffffffffffff", "0x8000000000000000", "0x7fffffffffffffff", "0xffffffff81000000", "-0x10", "0x10000000000000000", "-", "+",
+        "0xffffffffffffffff", "0x8000000000000000", "0x7fffffffffffffff", "0xffffffff81000000", "-0x10", "0x10000000000000000", "-", "+", "0x0x10", "0x0x", "00x10", "-0x8000000000000000",
         "-9223372036854775809", "1e3", "1.e3", ".5", "5.", "inf", "NaN", "none", "some", "true", "false", "True",
         "4", "6", "255", "-3", "0.5",
     ]
